@@ -51,6 +51,39 @@ def native_process(contract, name, conc, notes):
             "detail": f"real process_packet: {out['outcome']}; requests with a wrong outcome: {out['bad']}"}
 
 
+def native_fault(contract, name, conc, notes):
+    """the real process_packet when the frame never comes back"""
+    from ebpfcat.ethercat import EtherCat, EtherCatError
+    out = {}
+
+    async def go():
+        ec = object.__new__(EtherCat)
+        futs = [asyncio.get_event_loop().create_future() for _ in range(2)]
+        futs[1].cancel()
+
+        async def rp(packet, index=None):
+            raise OSError("network is down")
+        ec.roundtrip_packet = rp
+        try:
+            await ec.process_packet([(26, 28, futs[0]), (40, 42, futs[1])], None)
+            out["outcome"] = "return"
+        except Exception as ex:
+            out["outcome"] = "raise " + type(ex).__name__
+        e = futs[0].exception() if futs[0].done() and not futs[0].cancelled() else None
+        out["exc"] = repr(e)
+        out["bad"] = not isinstance(e, OSError) or isinstance(e, EtherCatError) or not futs[1].cancelled()
+    import logging
+    logging.disable(logging.CRITICAL)
+    try:
+        asyncio.run(go())
+    finally:
+        logging.disable(logging.NOTSET)
+    return {"inputs": {"requests": "one pending, one cancelled by its owner", "bus": "OSError('network is down')"},
+            "reproduced": out["bad"] or out["outcome"] != "raise OSError",
+            "detail": f"real process_packet: {out['outcome']}; the pending request failed with {out['exc']} "
+                      f"(EtherCatError means: the bus did not process the datagram)"}
+
+
 def run(tier, seed):
     from contracts import c12_requests as S
     rep = R.Report("C12", tier, seed)
@@ -63,6 +96,7 @@ def run(tier, seed):
               "frame); windows, response bytes and which requests were cancelled are unbounded")
     for c in S.PROCESS:
         api.verify(c, rep, replay=lambda n, i, nt, c=c: native_process(c, n, i, nt))
+    S.verify_faults(api, rep, native_fault)
     from props import c12_sendloop
     c12_sendloop.verify(rep)
     return rep.finish(
